@@ -536,6 +536,15 @@ pub fn cases(tier: &str) -> Vec<Value> {
     }
     // well-formed upstream answers at the wrong TIME (late, or the connection closed instead)
     out.extend(crate::checks::episode::cases("c05", tier == "thorough"));
+    // well-formed queries after a long silence: state with a lifetime (the cookie keys are replaced
+    // after 24-36 h) must not leave the service unable to answer
+    for hours in [0u64, 25, 37, 49, 110] {
+        for edns in ["plain", "cookie", "none"] {
+            for tr in ["udp", "tcp"] {
+                out.push(json!({"engine":"enet","check":"c05","kind":"uptime","hours":hours,"edns":edns,"transport":tr}));
+            }
+        }
+    }
     out
 }
 
@@ -645,6 +654,11 @@ fn run_episode(case: &Value) -> CaseResult {
 pub fn run_case(case: &Value) -> CaseResult {
     if case["kind"].as_str() == Some("episode") {
         return run_episode(case);
+    }
+    if case["kind"].as_str() == Some("uptime") {
+        let mut res = crate::checks::c07::run_uptime(case);
+        res.violations = res.violations.into_iter().map(|v| Violation::new("still-answers", v.what.clone(), case.clone()).sig("part", "uptime")).collect();
+        return res;
     }
     if case["kind"].as_str() == Some("back-to-back") {
         return run_b2b(case);
